@@ -92,6 +92,23 @@ func checkC16(e *Env) {
 			}
 			emit(&Item{Op: plan.Op{Fn: "strrange", Lo: lo, Hi: hi}, Exp: c16exp{lo: lo, hi: hi}})
 		}
+		// dense windows around every power of ten, both signs (the number of decimal digits
+		// changes there; digit counts taken from floating-point logarithms go wrong near them)
+		for p10 := int64(10); p10 > 0 && p10 <= 1000000000000000000; p10 *= 10 {
+			w := int64(e.pick(6000, 60000))
+			for _, centre := range []int64{p10, -p10} {
+				for lo := centre - w; lo < centre+w; lo += chunk {
+					hi := lo + chunk - 1
+					if hi > centre+w {
+						hi = centre + w
+					}
+					emit(&Item{Op: plan.Op{Fn: "strrange", Lo: lo, Hi: hi}, Exp: c16exp{lo: lo, hi: hi}})
+				}
+			}
+			if p10 == 1000000000000000000 {
+				break
+			}
+		}
 		// random windows elsewhere in the int64 space
 		for k := 0; k < e.pick(200, 5000); k++ {
 			lo := int64(r.Uint64())
@@ -284,7 +301,7 @@ func checkC16(e *Env) {
 		"evaluations":                      values,
 		"distinct_nontrivial":              dist.Len(),
 		"calls_repeated_under_concurrency": concCalls,
-		"rule":                             "cases are int values of Language: the ten supported values (complete), every value in [-2^20, 2^20] (thorough [-2^24, 2^24]) through SHA-256 digests of 16384-value chunks computed in the child and compared with the digest of the expected names (a differing chunk is bisected to a single value), boundary values of every integer width, values congruent to supported ones modulo 2^8/2^16/2^32, seeded random int64 values and windows, log-uniform values of every bit length, and 16 uninterrupted histories of 2^23 (thorough 2^26) pseudo-random values each, formatted in one child and compared through a digest (a wrong name anywhere is located by bisecting the history length); non-trivial = every value (the expected string is fully determined); distinct = single values and chunks whose output was confirmed",
+		"rule":                             "cases are int values of Language: the ten supported values (complete), every value in [-2^20, 2^20] (thorough [-2^24, 2^24]) through SHA-256 digests of 16384-value chunks computed in the child and compared with the digest of the expected names (a differing chunk is bisected to a single value), boundary values of every integer width, values congruent to supported ones modulo 2^8/2^16/2^32, dense windows around every power of ten (both signs), seeded random int64 values and windows, log-uniform values of every bit length, and 16 uninterrupted histories of 2^23 (thorough 2^26) pseudo-random values each, formatted in one child and compared through a digest (a wrong name anywhere is located by bisecting the history length); non-trivial = every value (the expected string is fully determined); distinct = single values and chunks whose output was confirmed",
 		"samples":                          smp.List(),
 		"supported_names_observed":         supported,
 		"supported_subset_exhaustive":      true,
